@@ -34,25 +34,26 @@ Qed.
 
 (* ---------------------------------------------------------------- invariant *)
 Definition live_for (s : state) (id c : N) : bool :=
-  (eid (conns s c) =? id) && negb (is_done (cstate (conns s c))).
+  (eid (conns s c) =? id) && negb (taken (conns s c)) && negb (is_done (cstate (conns s c))).
 
 Record Inv (s : state) : Prop := {
   inv_nodup : NoDup (order s);
   inv_order : forall c, In c (order s) <-> inserted (conns s c) = true;
   inv_fresh : forall c, nconns s <= c -> inserted (conns s c) = false /\ cstate (conns s c) = Fresh;
   inv_done : forall c, cstate (conns s c) = Done -> inserted (conns s c) = true;
-  inv_reg : forall id, reg s id = filter (live_for s id) (order s)
+  inv_reg : forall id, reg s id = filter (live_for s id) (order s);
+  inv_taken : forall c, taken (conns s c) = true -> inserted (conns s c) = true
 }.
 
 (* changes that leave the registry-relevant part of every connection alone *)
 Definition sim (x y : conn) : Prop :=
   eid x = eid y /\ inserted x = inserted y /\ is_done (cstate x) = is_done (cstate y) /\
-  (cstate x = Fresh -> cstate y = Fresh).
+  (cstate x = Fresh -> cstate y = Fresh) /\ taken x = taken y.
 
 Lemma sim_refl x : sim x x.
 Proof. repeat split; auto. Qed.
 Lemma sim_trans x y z : sim x y -> sim y z -> sim x z.
-Proof. intros (a & b & c & d) (a' & b' & c' & d'). repeat split; try congruence. auto. Qed.
+Proof. intros (a & b & c & d & e) (a' & b' & c' & d' & e'). repeat split; try congruence. auto. Qed.
 
 Definition same_reg (s s' : state) : Prop :=
   nconns s' = nconns s /\ order s' = order s /\ (forall id, reg s' id = reg s id) /\
@@ -68,17 +69,18 @@ Qed.
 
 Lemma Inv_same_reg s s' : same_reg s s' -> Inv s -> Inv s'.
 Proof.
-  intros (Hn & Ho & Hr & Hs) [I1 I2 I3 I4 I5].
+  intros (Hn & Ho & Hr & Hs) [I1 I2 I3 I4 I5 I6].
   assert (Hlive : forall id c, live_for s' id c = live_for s id c).
-  { intros id c. unfold live_for. destruct (Hs c) as (e1 & _ & e3 & _). now rewrite e1, e3. }
+  { intros id c. unfold live_for. destruct (Hs c) as (e1 & _ & e3 & _ & e5). now rewrite e1, e3, e5. }
   constructor.
   - now rewrite Ho.
   - intros c. rewrite Ho. destruct (Hs c) as (_ & e2 & _). rewrite <- e2. apply I2.
   - intros c Hc. rewrite Hn in Hc. destruct (I3 c Hc) as [a b].
-    destruct (Hs c) as (_ & e2 & _ & e4). split; [congruence|auto].
+    destruct (Hs c) as (_ & e2 & _ & e4 & _). split; [congruence|auto].
   - intros c Hd. destruct (Hs c) as (_ & e2 & e3 & _). rewrite <- e2. apply I4.
     rewrite Hd in e3. cbn in e3. destruct (cstate (conns s c)); cbn in e3; congruence.
   - intros id. rewrite Hr, Ho, I5. apply filter_ext. intros c. now rewrite Hlive.
+  - intros c Ht. destruct (Hs c) as (_ & e2 & _ & _ & e5). rewrite <- e2. apply I6. congruence.
 Qed.
 
 Lemma same_reg_set_conn s c x : sim (conns s c) x -> same_reg s (set_conn s c x).
@@ -124,11 +126,12 @@ Proof.
   - intros; split; reflexivity.
   - discriminate.
   - reflexivity.
+  - discriminate.
 Qed.
 
 Lemma Inv_spawn s id v s' : Inv s -> step true s (Spawn id v) = Some s' -> Inv s'.
 Proof.
-  intros [I1 I2 I3 I4 I5] H. cbn in H. injection H as <-.
+  intros [I1 I2 I3 I4 I5 I6] H. cbn in H. injection H as <-.
   assert (Hn : ~ In (nconns s) (order s)).
   { intros Hin. apply I2 in Hin. destruct (I3 (nconns s)) as [a _]; [lia|congruence]. }
   constructor; cbn.
@@ -142,6 +145,9 @@ Proof.
     + rewrite fupd_other by assumption. apply I4.
   - intros i. rewrite I5. apply filter_ext_in. intros c Hc. unfold live_for. cbn.
     rewrite fupd_other; [reflexivity|]. intros ->. contradiction.
+  - intros c. destruct (N.eq_dec c (nconns s)) as [->|Hne].
+    + rewrite fupd_same. cbn. discriminate.
+    + rewrite fupd_other by assumption. apply I6.
 Qed.
 
 (* the entry update of register, common to both arms *)
@@ -164,7 +170,7 @@ Qed.
 
 Lemma Inv_insert s c s' : Inv s -> step true s (Insert c) = Some s' -> Inv s'.
 Proof.
-  intros [I1 I2 I3 I4 I5] H. cbn [step] in H.
+  intros [I1 I2 I3 I4 I5 I6] H. cbn [step] in H.
   destruct ((c <? nconns s) && negb (inserted (conns s c))) eqn:Hc; [|discriminate].
   apply andb_prop in Hc as [Hlt Hni]. apply N.ltb_lt in Hlt. apply negb_true_iff in Hni.
   set (id := eid (conns s c)) in *.
@@ -175,6 +181,8 @@ Proof.
   assert (Hnin : ~ In c (order s)) by (intros Hin; apply I2 in Hin; congruence).
   assert (Hnd : is_done (cstate (conns s c)) = false).
   { destruct (cstate (conns s c)) eqn:Ec; try reflexivity. apply I4 in Ec. congruence. }
+  assert (Hnt : taken (conns s c) = false).
+  { destruct (taken (conns s c)) eqn:Et; [|reflexivity]. apply I6 in Et. congruence. }
   constructor; cbn.
   - rewrite ho. constructor; assumption.
   - intros c'. rewrite ho. destruct (N.eq_dec c' c) as [->|Hne].
@@ -182,7 +190,7 @@ Proof.
     + rewrite fupd_other by assumption. destruct (hs c') as (_ & e2 & _). rewrite <- e2.
       rewrite <- I2. split; [intros [Hx|Hx]; [congruence|assumption] | now right].
   - intros c' Hc'. rewrite hn in Hc'. rewrite fupd_other by lia.
-    destruct (hs c') as (_ & e2 & _ & e4). destruct (I3 c' Hc') as [a b]. split; [congruence|auto].
+    destruct (hs c') as (_ & e2 & _ & e4 & _). destruct (I3 c' Hc') as [a b]. split; [congruence|auto].
   - intros c'. destruct (N.eq_dec c' c) as [->|Hne].
     + rewrite fupd_same. reflexivity.
     + rewrite fupd_other by assumption. intros Hd.
@@ -195,13 +203,17 @@ Proof.
               (order s) = filter (live_for s i) (order s)).
     { apply filter_ext_in. intros c' Hin. unfold live_for. cbn.
       rewrite fupd_other by (intros ->; contradiction).
-      destruct (hs c') as (e1 & _ & e3 & _). now rewrite e1, e3. }
+      destruct (hs c') as (e1 & _ & e3 & _ & e5). now rewrite e1, e3, e5. }
     cbn [filter]. rewrite Hrest.
     unfold live_for at 1. cbn. rewrite fupd_same. cbn.
-    destruct (hs c) as (e1 & _ & e3 & _). rewrite <- e1, <- e3, Hnd. fold id.
+    destruct (hs c) as (e1 & _ & e3 & _ & e5). rewrite <- e1, <- e3, <- e5, Hnd, Hnt. fold id.
     rewrite (N.eqb_sym i id). destruct (id =? i) eqn:Ei; cbn.
     + apply N.eqb_eq in Ei. subst i. now rewrite I5.
     + apply I5.
+  - intros c'. destruct (N.eq_dec c' c) as [->|Hne].
+    + rewrite fupd_same. reflexivity.
+    + rewrite fupd_other by assumption. destruct (hs c') as (_ & e2 & _ & _ & e5).
+      rewrite <- e2, <- e5. apply I6.
 Qed.
 
 (* the entry update of unregister *)
@@ -244,7 +256,7 @@ Qed.
 
 Lemma Inv_unregister s c s' : Inv s -> step true s (Unregister c) = Some s' -> Inv s'.
 Proof.
-  intros I H. pose proof I as [I1 I2 I3 I4 I5]. cbn [step] in H.
+  intros I H. pose proof I as [I1 I2 I3 I4 I5 I6]. cbn [step] in H.
   destruct (is_exited (cstate (conns s c)) && (negb true || inserted (conns s c))) eqn:Hc; [|discriminate].
   apply andb_prop in Hc as [Hex Hins]. cbn in Hins.
   set (id := eid (conns s c)) in *.
@@ -261,7 +273,7 @@ Proof.
     + rewrite fupd_same. cbn. destruct (hs c) as (_ & e2 & _). rewrite <- e2. apply I2.
     + rewrite fupd_other by assumption. destruct (hs c') as (_ & e2 & _). rewrite <- e2. apply I2.
   - intros c' Hc'. rewrite hn in Hc'. rewrite fupd_other by lia.
-    destruct (hs c') as (_ & e2 & _ & e4). destruct (I3 c' Hc') as [a b]. split; [congruence|auto].
+    destruct (hs c') as (_ & e2 & _ & e4 & _). destruct (I3 c' Hc') as [a b]. split; [congruence|auto].
   - intros c'. destruct (N.eq_dec c' c) as [->|Hne].
     + rewrite fupd_same. cbn. intros _. destruct (hs c) as (_ & e2 & _). congruence.
     + rewrite fupd_other by assumption. intros Hd.
@@ -273,21 +285,68 @@ Proof.
       apply filter_ext. intros c'. unfold live_for. cbn.
       destruct (N.eq_dec c' c) as [->|Hne].
       * rewrite fupd_same. cbn. rewrite (N.eqb_refl c). cbn. now rewrite !andb_false_r.
-      * rewrite fupd_other by assumption. destruct (hs c') as (e1 & _ & e3 & _).
-        rewrite <- e1, <- e3. apply N.eqb_neq in Hne. rewrite Hne. cbn. now rewrite andb_true_r.
+      * rewrite fupd_other by assumption. destruct (hs c') as (e1 & _ & e3 & _ & e5).
+        rewrite <- e1, <- e3, <- e5. apply N.eqb_neq in Hne. rewrite Hne. cbn. now rewrite andb_true_r.
     + rewrite I5. apply filter_ext. intros c'. unfold live_for. cbn.
       destruct (N.eq_dec c' c) as [->|Hne].
       * rewrite fupd_same. cbn. destruct (hs c) as (e1 & _). rewrite <- e1. fold id.
         rewrite N.eqb_sym, Ei. reflexivity.
-      * rewrite fupd_other by assumption. destruct (hs c') as (e1 & _ & e3 & _). now rewrite e1, e3.
+      * rewrite fupd_other by assumption. destruct (hs c') as (e1 & _ & e3 & _ & e5). now rewrite e1, e3, e5.
+  - intros c'. destruct (N.eq_dec c' c) as [->|Hne].
+    + rewrite fupd_same. cbn. intros _. destruct (hs c) as (_ & e2 & _). congruence.
+    + rewrite fupd_other by assumption. destruct (hs c') as (_ & e2 & _ & _ & e5).
+      rewrite <- e2, <- e5. apply I6.
+Qed.
+
+Lemma filter_all_false {A} (p : A -> bool) l : (forall x, In x l -> p x = false) -> filter p l = [].
+Proof.
+  induction l as [|a l IH]; intros H; [reflexivity|]. cbn [filter].
+  rewrite (H a) by now left. apply IH. intros x Hx. apply H. now right.
+Qed.
+
+Lemma existsb_in_true c l : In c l -> existsb (N.eqb c) l = true.
+Proof. intros H. apply existsb_exists. exists c. split; [assumption|apply N.eqb_refl]. Qed.
+
+(* Clients::shutdown takes an entry out of the map *)
+Lemma Inv_shuttake s id s' : Inv s -> step true s (ShutTake id) = Some s' -> Inv s'.
+Proof.
+  intros I H. pose proof I as [I1 I2 I3 I4 I5 I6]. cbn [step] in H. injection H as <-.
+  assert (Hin : forall c, existsb (N.eqb c) (reg s id) = true -> In c (reg s id)).
+  { intros c Hc. apply existsb_exists in Hc as (x & Hx & E). apply N.eqb_eq in E. now subst. }
+  constructor; cbn.
+  - exact I1.
+  - intros c. destruct (existsb (N.eqb c) (reg s id)); cbn; apply I2.
+  - intros c Hc. destruct (existsb (N.eqb c) (reg s id)); cbn; apply I3; assumption.
+  - intros c. destruct (existsb (N.eqb c) (reg s id)); cbn; apply I4.
+  - intros i. unfold fupd. destruct (i =? id) eqn:Ei.
+    + apply N.eqb_eq in Ei. subst i. symmetry.
+      assert (Hall : forall c, In c (order s) ->
+                live_for {| conns := fun c0 => if existsb (N.eqb c0) (reg s id) then with_taken (conns s c0) true else conns s c0;
+                            nconns := nconns s; reg := fun x => if x =? id then [] else reg s x; sent := sent s;
+                            pending := pending s; order := order s; cap := cap s |} id c = false).
+      { intros c Hc. unfold live_for. cbn.
+        destruct (existsb (N.eqb c) (reg s id)) eqn:Ex; cbn.
+        - now rewrite andb_false_r.
+        - destruct (live_for s id c) eqn:El.
+          + exfalso. assert (In c (reg s id)) by (rewrite I5; apply filter_In; auto).
+            rewrite existsb_in_true in Ex; [discriminate|assumption].
+          + exact El. }
+      apply filter_all_false. exact Hall.
+    + rewrite I5. apply filter_ext. intros c. unfold live_for. cbn.
+      destruct (existsb (N.eqb c) (reg s id)) eqn:Ex; [|reflexivity]. cbn.
+      apply Hin in Ex. rewrite I5 in Ex. apply filter_In in Ex as [_ Ex].
+      unfold live_for in Ex. apply andb_prop in Ex as [Ex _]. apply andb_prop in Ex as [Ex _].
+      apply N.eqb_eq in Ex. rewrite Ex, (N.eqb_sym id i), Ei. reflexivity.
+  - intros c. destruct (existsb (N.eqb c) (reg s id)) eqn:Ex; cbn; [intros _|apply I6].
+    apply Hin in Ex. rewrite I5 in Ex. apply filter_In in Ex as [Ex _]. now apply I2.
 Qed.
 
 (* every other event leaves the registry and the registry-relevant part of the connections alone *)
 Lemma step_same_reg s e s' :
   step true s e = Some s' ->
-  match e with Spawn _ _ | Insert _ | Unregister _ => True | _ => same_reg s s' end.
+  match e with Spawn _ _ | Insert _ | Unregister _ | ShutTake _ => True | _ => same_reg s s' end.
 Proof.
-  destruct e as [id v|c|c|c|c|k|a d tg|c pkt|id o]; try exact (fun _ => I); cbn [step]; intros H.
+  destruct e as [id v|c|c|c|c|k|a d tg|c pkt|id o|id|c]; try exact (fun _ => I); cbn [step]; intros H.
   - destruct (c <? nconns s); [|discriminate]. injection H as <-.
     apply same_reg_set_conn. repeat split; auto.
   - destruct (is_running (cstate (conns s c))) eqn:E; [|discriminate]. injection H as <-.
@@ -311,6 +370,7 @@ Proof.
   - destruct o as [c|].
     + destruct (existsb _ _); injection H as <-; [apply same_reg_cancel|apply same_reg_refl].
     + injection H as <-. apply same_reg_fold_cancel.
+  - destruct (taken (conns s c)); [|discriminate]. injection H as <-. apply same_reg_cancel.
 Qed.
 
 Lemma Inv_step s e s' : Inv s -> step true s e = Some s' -> Inv s'.
@@ -320,6 +380,7 @@ Proof.
   - eapply Inv_spawn; eassumption.
   - eapply Inv_insert; eassumption.
   - eapply Inv_unregister; eassumption.
+  - eapply Inv_shuttake; eassumption.
 Qed.
 
 Inductive reach : state -> Prop :=
@@ -349,11 +410,12 @@ Proof. intros H. apply (inv_reg s (run_Inv _ _ _ H)). Qed.
 
 (* readable corollaries *)
 Definition live (s : state) (c : N) : Prop :=
-  inserted (conns s c) = true /\ cstate (conns s c) <> Done.
+  inserted (conns s c) = true /\ taken (conns s c) = false /\ cstate (conns s c) <> Done.
 
-Lemma live_for_true s id c : live_for s id c = true <-> eid (conns s c) = id /\ cstate (conns s c) <> Done.
+Lemma live_for_true s id c :
+  live_for s id c = true <-> eid (conns s c) = id /\ taken (conns s c) = false /\ cstate (conns s c) <> Done.
 Proof.
-  unfold live_for. rewrite andb_true_iff, N.eqb_eq, negb_true_iff.
+  unfold live_for. rewrite !andb_true_iff, N.eqb_eq, !negb_true_iff.
   destruct (cstate (conns s c)); cbn; intuition congruence.
 Qed.
 
@@ -414,6 +476,72 @@ Proof.
   apply filter_In in Hin as [h1 h2]. apply live_for_true in h2 as [e1 e2].
   split; [split; [now apply (inv_order s I)|assumption]|assumption].
 Qed.
+
+(* ---- shutdown and stale unregisters ---- *)
+(* Clients::shutdown takes the entry of an id out of the map: only that entry changes, its
+   connections are marked; sent_to and the pending notices are untouched. *)
+Lemma shut_take_effect s id s' :
+  step true s (ShutTake id) = Some s' ->
+  reg s' id = [] /\ (forall i, i <> id -> reg s' i = reg s i) /\ sent s' = sent s /\ pending s' = pending s /\
+  (forall c, In c (reg s id) -> taken (conns s' c) = true) /\
+  (forall c, ~ In c (reg s id) -> conns s' c = conns s c).
+Proof.
+  cbn [step]. intros H. injection H as <-. cbn. split; [apply fupd_same|]. split; [intros; now apply fupd_other|].
+  split; [reflexivity|]. split; [reflexivity|]. split.
+  - intros c Hc. now rewrite existsb_in_true.
+  - intros c Hc. destruct (existsb (N.eqb c) (reg s id)) eqn:Ex; [|reflexivity].
+    exfalso. apply Hc. apply existsb_exists in Ex as (x & Hx & E). apply N.eqb_eq in E. now subst.
+Qed.
+
+(* a connection taken out of the map by a shutdown is in no entry, whatever happens afterwards
+   (in particular not in the new entry of its endpoint after a reconnect) *)
+Lemma taken_not_registered cap tr s :
+  run true (init cap) tr = Some s ->
+  forall c id, taken (conns s c) = true -> ~ In c (reg s id).
+Proof.
+  intros H c id Ht Hin. destruct (registered_are_live cap tr s H id c Hin) as [(_ & Hf & _) _]. congruence.
+Qed.
+
+(* A STALE unregister — of a connection that is not in the entry of its endpoint: the entry was
+   taken out by Clients::shutdown (and the endpoint may have reconnected since) — changes
+   nothing: no entry, no sent_to set, no notice, no other connection; only the unregistering
+   connection's own task ends. *)
+Lemma stale_unregister_changes_nothing s c s' :
+  step true s (Unregister c) = Some s' -> ~ In c (reg s (eid (conns s c))) ->
+  (forall id, reg s' id = reg s id) /\ sent s' = sent s /\ pending s' = pending s /\
+  (forall c', c' <> c -> conns s' c' = conns s c') /\ conns s' c = with_cstate (conns s c) Done.
+Proof.
+  cbn [step]. destruct (is_exited _ && _); [|discriminate]. intros H Hn. injection H as <-.
+  set (id := eid (conns s c)) in *.
+  destruct (reg s id) as [|a rest] eqn:E.
+  - cbn. split; [reflexivity|]. split; [reflexivity|]. split; [reflexivity|].
+    split; [intros; now apply fupd_other|apply fupd_same].
+  - destruct (a =? c) eqn:Eac; [apply N.eqb_eq in Eac; subst a; exfalso; apply Hn; now left|].
+    rewrite filter_id_notin by (intros Hx; apply Hn; now right). cbn.
+    split; [|split; [reflexivity|split; [reflexivity|split; [intros; now apply fupd_other|apply fupd_same]]]].
+    intros i. unfold fupd. destruct (i =? id) eqn:Ei; [|reflexivity]. apply N.eqb_eq in Ei. now subst.
+Qed.
+
+(* the unregister of a taken connection is stale *)
+Lemma taken_unregister_changes_nothing cap tr s c s' :
+  run true (init cap) tr = Some s -> taken (conns s c) = true ->
+  step true s (Unregister c) = Some s' ->
+  (forall id, reg s' id = reg s id) /\ sent s' = sent s /\ pending s' = pending s /\
+  (forall c', c' <> c -> conns s' c' = conns s c').
+Proof.
+  intros H Ht E.
+  destruct (stale_unregister_changes_nothing s c s' E (taken_not_registered cap tr s H c _ Ht)) as (a & b & d & e & _).
+  auto.
+Qed.
+
+(* non-vacuity: shutdown takes A's entry, A reconnects, the old connection's actor is stopped and
+   unregisters: the new connection stays registered and running *)
+Example stale_unregister_example :
+  exists s, run true (init 3)
+    [Spawn 0 2; Insert 0; ShutTake 0; Spawn 0 2; Insert 1; ShutStop 0; Exit 0; Unregister 0] = Some s /\
+    reg s 0 = [1] /\ cstate (conns s 0) = Done /\ taken (conns s 0) = true /\
+    cstate (conns s 1) = Running /\ pending s = [].
+Proof. eexists. split; [vm_compute; reflexivity|]. repeat split. Qed.
 
 (* ---- notices (single steps from any state satisfying the invariant) ---- *)
 Definition room (s : state) (a : N) : Prop :=
@@ -481,7 +609,7 @@ Lemma peer_gone_only_after_last s e s' A p :
 Proof.
   intros I H Hin Hnin.
   assert (Hother : match e with Unregister _ => True | _ => forall x, In x (pending s') -> In x (pending s) end).
-  { destruct e as [id v|c|c|c|c|k|a d tg|c pkt|id o]; try exact Logic.I; cbn [step] in H; intros x.
+  { destruct e as [id v|c|c|c|c|k|a d tg|c pkt|id o|id|c]; try exact Logic.I; cbn [step] in H; intros x.
     - injection H as <-. auto.
     - destruct (_ && _); [|discriminate]. injection H as <-. cbn.
       destruct (reg s (eid (conns s c))); cbn; [auto|].
@@ -506,8 +634,10 @@ Proof.
       + injection H as <-.
         assert (Hf : forall l t, pending (fold_left cancel l t) = pending t).
         { induction l as [|z l IHl]; intros t; cbn; [reflexivity|]. now rewrite IHl. }
-        now rewrite Hf. }
-  destruct e as [id v|c|c|c|c|k|a d tg|c pkt|id o]; try (exfalso; apply Hnin, Hother, Hin).
+        now rewrite Hf.
+    - injection H as <-. auto.
+    - destruct (taken _); [|discriminate]. injection H as <-. auto. }
+  destruct e as [id v|c|c|c|c|k|a d tg|c pkt|id o|id|c]; try (exfalso; apply Hnin, Hother, Hin).
   pose proof (Inv_unregister s c s' I H) as I'.
   cbn [step] in H.
   destruct (is_exited (cstate (conns s c)) && _) eqn:Hc; [|discriminate].
@@ -626,7 +756,14 @@ Qed.
 Lemma unregister_full_reach s c : reach s -> reach (unregister_full s c).
 Proof. intros H. unfold unregister_full. now apply notify_all_reach, doev_reach. Qed.
 
-#[local] Hint Resolve doev_reach settle_reach unregister_full_reach : c06.
+Lemma shut_all_reach s : reach s -> reach (shut_all s).
+Proof.
+  intros H. unfold shut_all.
+  apply fold_left_reach; [intros; now apply doev_reach|].
+  apply fold_left_reach; [intros; now apply doev_reach|assumption].
+Qed.
+
+#[local] Hint Resolve doev_reach settle_reach unregister_full_reach shut_all_reach : c06.
 
 Lemma exec_op_reach ss o : reach (st ss) -> reach (st (fst (exec_op ss o))).
 Proof.
@@ -744,7 +881,7 @@ Definition exit_conn (x : conn) : conn :=
 
 Definition drain_conn (x : conn) : conn :=
   if is_running (cstate x)
-  then mkConn (eid x) (ver x) (cstate x) (cancelled x) (closed x) (inserted x) [] [] (got x ++ pq x ++ mq x)
+  then mkConn (eid x) (ver x) (cstate x) (cancelled x) (closed x) (inserted x) (taken x) [] [] (got x ++ pq x ++ mq x)
   else x.
 
 Definition settle_conn (x : conn) : conn := drain_conn (exit_conn x).
@@ -867,6 +1004,14 @@ Proof.
   intros c. rewrite Hc, crange_existsb. reflexivity.
 Qed.
 
+Lemma settle_taken s c : taken (conns (settle s) c) = taken (conns s c).
+Proof.
+  destruct (settle_spec s) as [_ Hc]. rewrite Hc. destruct (c <? nconns s); [|reflexivity].
+  unfold settle_conn, drain_conn, exit_conn.
+  destruct (is_running (cstate (conns s c)) && _); cbn; [reflexivity|].
+  destruct (is_running (cstate (conns s c))); reflexivity.
+Qed.
+
 (* ---------------------------------------------------------------- between two script operations *)
 Definition queues (x : conn) : list frame := pq x ++ mq x.
 
@@ -974,7 +1119,7 @@ Lemma step_cdelta s e s' c :
   cdelta (evsrc s e) (conns s c) (conns s' c) \/
   ((exists id v, e = Spawn id v) /\ got (conns s' c) = [] /\ queues (conns s' c) = []).
 Proof.
-  intros H Hs. destruct e as [id v|c0|c0|c0|c0|k|a d tg|c0 pkt|id o]; try contradiction; cbn [step] in H.
+  intros H Hs. destruct e as [id v|c0|c0|c0|c0|k|a d tg|c0 pkt|id o|id|c0]; try contradiction; cbn [step] in H.
   - injection H as <-. cbn. unfold fupd. destruct (c =? nconns s); [right; eauto|left; apply cdelta_refl].
   - destruct (_ && _); [|discriminate]. injection H as <-. left. cbn.
     set (s1 := match reg s (eid (conns s c0)) with [] => _ | _ :: _ => _ end).
@@ -1010,6 +1155,8 @@ Proof.
   - left. destruct o as [c1|].
     + destruct (existsb _ _); injection H as <-; [apply cancel_cdelta|apply cdelta_refl].
     + injection H as <-. apply fold_cancel_cdelta.
+  - left. injection H as <-. cbn. destruct (existsb _ _); [|apply cdelta_refl]. repeat split; auto.
+  - left. destruct (taken _); [|discriminate]. injection H as <-. apply cancel_cdelta.
 Qed.
 
 (* ---- peer-gone notices are in flight only for endpoints without an entry ---- *)
@@ -1133,15 +1280,126 @@ Proof.
     destruct (enqueue_m_fields s1 n (FGone gone)) as (_ & -> & _). congruence.
 Qed.
 
+(* ---- Clients::shutdown: the entries are taken out, the taken connections stopped ---- *)
+Inductive shut_ev : event -> Prop :=
+| sh_take id : shut_ev (ShutTake id)
+| sh_stop c : shut_ev (ShutStop c).
+
+Lemma shut_script e : shut_ev e -> script_ev e.
+Proof. now destruct 1. Qed.
+
+Lemma shut_all_prop (P : state -> Prop) s :
+  (forall t e, shut_ev e -> P t -> P (doev t e)) -> P s -> P (shut_all s).
+Proof.
+  intros HP H. unfold shut_all.
+  assert (F : forall {A} (f : A -> event), (forall a, shut_ev (f a)) ->
+            forall l t, P t -> P (fold_left (fun s a => doev s (f a)) l t)).
+  { intros A f Hf l. induction l as [|a l IH]; intros t Ht; cbn [fold_left]; [assumption|].
+    apply IH, HP; [apply Hf|assumption]. }
+  apply (F _ ShutStop); [constructor|]. apply (F _ ShutTake); [constructor|assumption].
+Qed.
+
+Lemma shut_pending s e : shut_ev e -> pending (doev s e) = pending s.
+Proof.
+  intros He. unfold doev. change locked_register with true. destruct He; cbn [step]; [reflexivity|].
+  destruct (taken _); reflexivity.
+Qed.
+
+Lemma shut_gclean s e : shut_ev e -> gclean s -> gclean (doev s e).
+Proof.
+  intros He [H1 H2]. split; [|now rewrite shut_pending].
+  unfold doev. change locked_register with true.
+  destruct (step true s e) as [s'|] eqn:E; [|assumption].
+  intros c X Hr Hin.
+  destruct (step_cdelta s e s' c E (shut_script e He)) as [(_ & hr & hq)|(_ & _ & hq)].
+  - destruct (hq _ Hin) as [Hold|[Hng|(k & p & Y & -> & _)]].
+    + apply (H1 c X); auto.
+    + now apply (Hng X).
+    + inversion He.
+  - rewrite hq in Hin. contradiction.
+Qed.
+
+(* what the first half does: the entries of the ids in L are gone, their connections marked *)
+Lemma flat_map_ext_in {A B} (f g : A -> list B) l : (forall x, In x l -> f x = g x) -> flat_map f l = flat_map g l.
+Proof.
+  induction l as [|a l IH]; intros H; cbn; [reflexivity|]. rewrite (H a) by now left.
+  f_equal. apply IH. intros x Hx. apply H. now right.
+Qed.
+
+Lemma existsb_app_N c (l1 l2 : list N) : existsb (N.eqb c) (l1 ++ l2) = existsb (N.eqb c) l1 || existsb (N.eqb c) l2.
+Proof. apply existsb_app. Qed.
+
+Lemma take_fold L : forall s, NoDup L ->
+  let t := fold_left (fun s id => doev s (ShutTake id)) L s in
+  (forall i, reg t i = if existsb (N.eqb i) L then [] else reg s i) /\
+  (forall c, taken (conns t c) = taken (conns s c) || existsb (N.eqb c) (flat_map (reg s) L)).
+Proof.
+  induction L as [|a L IH]; intros s Hnd; cbn [fold_left].
+  - split; [reflexivity|]. intros c. cbn. now rewrite orb_false_r.
+  - inversion Hnd as [|? ? Hn Hnd']. subst.
+    set (s1 := doev s (ShutTake a)).
+    assert (Hr1 : forall i, reg s1 i = if i =? a then [] else reg s i) by (intros i; reflexivity).
+    assert (Ht1 : forall c, taken (conns s1 c) = taken (conns s c) || existsb (N.eqb c) (reg s a)).
+    { intros c. unfold s1, doev. change locked_register with true. cbn [step conns].
+      destruct (existsb (N.eqb c) (reg s a)); cbn; [now rewrite orb_true_r|now rewrite orb_false_r]. }
+    destruct (IH s1 Hnd') as [hr ht]. split.
+    + intros i. rewrite hr, Hr1. cbn [existsb]. destruct (i =? a) eqn:E; cbn [orb]; [now destruct (existsb _ _)|reflexivity].
+    + intros c. rewrite ht, Ht1. cbn [flat_map]. rewrite existsb_app_N, orb_assoc. f_equal.
+      f_equal. apply flat_map_ext_in. intros x Hx. rewrite Hr1.
+      destruct (x =? a) eqn:E; [|reflexivity]. apply N.eqb_eq in E. subst. contradiction.
+Qed.
+
+Lemma stop_fold L : forall s,
+  let t := fold_left (fun s c => doev s (ShutStop c)) L s in
+  (forall i, reg t i = reg s i) /\ (forall c, taken (conns t c) = taken (conns s c)).
+Proof.
+  induction L as [|a L IH]; intros s; cbn [fold_left]; [split; reflexivity|].
+  destruct (IH (doev s (ShutStop a))) as [hr ht].
+  assert (H1 : (forall i, reg (doev s (ShutStop a)) i = reg s i) /\
+               (forall c, taken (conns (doev s (ShutStop a)) c) = taken (conns s c))).
+  { unfold doev. change locked_register with true. cbn [step]. destruct (taken (conns s a)); [|split; reflexivity].
+    destruct (same_reg_cancel s a) as (_ & _ & h3 & h4). split; [exact h3|].
+    intros c. destruct (h4 c) as (_ & _ & _ & _ & e5). now rewrite e5. }
+  destruct H1 as [h1 h2]. split; [intros i; now rewrite hr|intros c; now rewrite ht].
+Qed.
+
+Lemma ids_NoDup : NoDup ids.
+Proof. unfold ids. repeat constructor; cbn; intuition discriminate. Qed.
+
+Lemma shut_all_spec s :
+  (forall i, reg (shut_all s) i = if existsb (N.eqb i) ids then [] else reg s i) /\
+  (forall c, taken (conns (shut_all s) c) = taken (conns s c) || existsb (N.eqb c) (flat_map (reg s) ids)).
+Proof.
+  unfold shut_all. destruct (take_fold ids s ids_NoDup) as [hr ht]. cbv zeta in hr, ht.
+  set (s1 := fold_left (fun s id => doev s (ShutTake id)) ids s) in *.
+  destruct (stop_fold (flat_map (reg s) ids) s1) as [hr2 ht2]. cbv zeta in hr2, ht2.
+  split; [intros i; now rewrite hr2|intros c; now rewrite ht2].
+Qed.
+
+Lemma shut_all_reg_cases s i : reg (shut_all s) i = reg s i \/ reg (shut_all s) i = [].
+Proof. destruct (shut_all_spec s) as [hr _]. rewrite hr. destruct (existsb _ _); auto. Qed.
+
+(* an entry that disappears in a shutdown: its connections are marked as taken *)
+Lemma shut_all_taken s X c :
+  reg s X <> [] -> reg (shut_all s) X = [] -> In c (reg s X) -> taken (conns (shut_all s) c) = true.
+Proof.
+  intros Hne Hnil Hin. destruct (shut_all_spec s) as [hr ht]. rewrite hr in Hnil.
+  destruct (existsb (N.eqb X) ids) eqn:E; [|contradiction].
+  rewrite ht. apply orb_true_iff. right. apply existsb_exists. exists c. split; [|apply N.eqb_refl].
+  apply in_flat_map. exists X. split; [|assumption].
+  apply existsb_exists in E as (y & Hy & Ey). apply N.eqb_eq in Ey. now subst.
+Qed.
+
 (* the state an operation reaches before its final [settle] *)
 Inductive mid (s : state) : state -> Prop :=
 | mid_ev e : simple_ev e -> mid s (doev s e)
 | mid_reg id v : mid s (doev (doev s (Spawn id v)) (Insert (nconns s)))
 | mid_unreg c : mid s (unregister_full s c)
-| mid_ins_unreg c x : eid (conns s c) = eid (conns s x) -> mid s (unregister_full (doev s (Insert c)) x).
+| mid_ins_unreg c x : eid (conns s c) = eid (conns s x) -> mid s (unregister_full (doev s (Insert c)) x)
+| mid_shut : mid s (shut_all s).
 
 Lemma mid_reach s s' : reach s -> mid s s' -> reach s'.
-Proof. intros H M. destruct M; auto using doev_reach, unregister_full_reach. Qed.
+Proof. intros H M. destruct M; auto using doev_reach, unregister_full_reach, shut_all_reach. Qed.
 
 Lemma doev_simple_pending s e : simple_ev e -> pending (doev s e) = pending s.
 Proof.
@@ -1156,6 +1414,8 @@ Proof.
   - right. rewrite !doev_simple_pending by constructor. reflexivity.
   - left. unfold unregister_full. now apply notify_all_pending.
   - left. unfold unregister_full. now apply notify_all_pending.
+  - right. apply (shut_all_prop (fun t => pending t = pending s)); [|reflexivity].
+    intros t e He Ht. now rewrite shut_pending.
 Qed.
 
 Lemma mid_gsafe s s' : reach s -> Sett s -> mid s s' -> gsafe s'.
@@ -1167,6 +1427,8 @@ Proof.
   - unfold unregister_full. apply notify_all_gsafe, unregister_gsafe.
     + now apply reach_Inv, doev_reach.
     + apply simple_gclean; [constructor|assumption].
+  - apply gclean_gsafe. apply (shut_all_prop gclean); [|assumption].
+    intros t e He Ht. now apply shut_gclean.
 Qed.
 
 Lemma doev_nospawn_cdelta s e c :
@@ -1208,12 +1470,127 @@ Proof.
   - eapply gotrel_trans; apply doev_gotrel; exact Logic.I.
   - left. apply unregister_full_got.
   - eapply gotrel_trans; [apply (doev_gotrel s (Insert c0)); exact Logic.I|]. left. apply unregister_full_got.
+  - apply (shut_all_prop (fun t => gotrel (conns s c) (conns t c))); [|now left].
+    intros t e He Ht. eapply gotrel_trans; [exact Ht|]. now apply doev_gotrel, shut_script.
+Qed.
+
+(* ---- in the script semantics a connection leaves its loop only when its client closed or it
+        was told to stop (disconnect, shutdown, a send that found it closed) ---- *)
+Definition expl_ok (x : conn) : Prop :=
+  is_running (cstate x) = true \/ (cancelled x || closed x) = true.
+Definition Expl (s : state) : Prop := forall c, c < nconns s -> expl_ok (conns s c).
+
+Lemma Expl_ext s s' : nconns s' = nconns s -> conns s' = conns s -> Expl s -> Expl s'.
+Proof. intros Hn Hc H c Hlt. rewrite Hc. apply H. now rewrite <- Hn. Qed.
+
+Lemma expl_set_conn s c y : Expl s -> (expl_ok (conns s c) -> expl_ok y) -> Expl (set_conn s c y).
+Proof.
+  intros H Hy c' Hc'. cbn in *. unfold fupd. destruct (c' =? c) eqn:E; [|now apply H].
+  apply N.eqb_eq in E. subst. apply Hy, H, Hc'.
+Qed.
+
+Lemma expl_enqueue_m s a f : Expl s -> Expl (enqueue_m s a f).
+Proof.
+  intros H. unfold enqueue_m. destruct (is_done _); [assumption|]. destruct (_ <? _); [|assumption].
+  apply expl_set_conn; [assumption|]. intros Hx. exact Hx.
+Qed.
+
+Lemma expl_cancel s c : Expl s -> Expl (cancel s c).
+Proof. intros H. apply expl_set_conn; [assumption|]. intros _. right. reflexivity. Qed.
+
+Lemma expl_fold_cancel l : forall s, Expl s -> Expl (fold_left cancel l s).
+Proof. induction l as [|a l IH]; intros s H; cbn; [assumption|]. now apply IH, expl_cancel. Qed.
+
+Lemma enqueue_m_cstate s a f c : cstate (conns (enqueue_m s a f) c) = cstate (conns s c).
+Proof.
+  unfold enqueue_m. destruct (is_done _); [reflexivity|]. destruct (_ <? _); [|reflexivity].
+  cbn. unfold fupd. destruct (c =? a) eqn:E; [|reflexivity]. apply N.eqb_eq in E. now subst.
+Qed.
+
+Lemma step_expl s e s' : step true s e = Some s' -> script_ev e -> Expl s -> Expl s'.
+Proof.
+  intros H Hs HE. destruct e as [id v|c0|c0|c0|c0|k|a d tg|c0 pkt|id o|id|c0]; try contradiction; cbn [step] in H.
+  - injection H as <-. intros c Hc. cbn in *. unfold fupd.
+    destruct (c =? nconns s) eqn:E; [left; reflexivity|]. apply HE. apply N.eqb_neq in E. lia.
+  - destruct (_ && _); [|discriminate]. injection H as <-.
+    set (s1 := match reg s (eid (conns s c0)) with [] => _ | _ :: _ => _ end).
+    assert (H1 : Expl s1).
+    { unfold s1. destruct (reg s (eid (conns s c0))) as [|a rest]; [exact HE|].
+      apply (Expl_ext (enqueue_m s a (status_frame (ver (conns s a)) 1))); [reflexivity..|].
+      now apply expl_enqueue_m. }
+    apply (Expl_ext (set_conn s1 c0 (with_inserted (conns s1 c0) true))); [reflexivity..|].
+    apply expl_set_conn; [assumption|]. intros Hx. exact Hx.
+  - destruct (_ <? _); [|discriminate]. injection H as <-.
+    apply expl_set_conn; [assumption|]. intros _. right. cbn. apply orb_true_r.
+  - destruct (is_exited (cstate (conns s c0)) && _) eqn:Hc; [|discriminate]. injection H as <-.
+    apply andb_prop in Hc as [Hex _].
+    set (s1 := match reg s (eid (conns s c0)) with [] => s | _ :: _ => _ end).
+    assert (H1 : Expl s1 /\ cstate (conns s1 c0) = cstate (conns s c0)).
+    { unfold s1. destruct (reg s (eid (conns s c0))) as [|a rest]; [split; [exact HE|reflexivity]|].
+      destruct (a =? c0); [|split; [exact HE|reflexivity]].
+      destruct rest as [|p rest']; [split; [exact HE|reflexivity]|].
+      split; [|apply (enqueue_m_cstate (set_reg s (eid (conns s c0)) (p :: rest')))].
+      apply expl_enqueue_m. exact HE. }
+    destruct H1 as [H1 H2]. apply expl_set_conn; [assumption|].
+    intros [Hx|Hx]; [|right; exact Hx]. rewrite H2 in Hx.
+    destruct (cstate (conns s c0)); discriminate.
+  - destruct (nth_error (pending s) (N.to_nat k)) as [[gone peer]|]; [|discriminate].
+    set (s1 := set_pending s _) in *.
+    destruct (reg s1 peer) as [|a rest]; injection H as <-; [exact HE|]. apply expl_enqueue_m. exact HE.
+  - destruct (is_running _); [|discriminate].
+    destruct (reg s d) as [|b rest]; [injection H as <-; exact HE|].
+    destruct (is_done _); [injection H as <-; now apply expl_cancel|].
+    destruct (_ <? _); injection H as <-; [|exact HE].
+    apply (Expl_ext (set_conn s b (with_pq (conns s b) (pq (conns s b) ++ [FData (eid (conns s a)) tg])))); [reflexivity..|].
+    apply expl_set_conn; [assumption|]. intros Hx. exact Hx.
+  - destruct o as [c1|].
+    + destruct (existsb _ _); injection H as <-; [now apply expl_cancel|exact HE].
+    + injection H as <-. now apply expl_fold_cancel.
+  - injection H as <-. intros c Hc. cbn in *. destruct (existsb _ _); apply HE, Hc.
+  - destruct (taken _); [|discriminate]. injection H as <-. now apply expl_cancel.
+Qed.
+
+Lemma doev_expl s e : script_ev e -> Expl s -> Expl (doev s e).
+Proof.
+  intros Hs H. unfold doev. change locked_register with true.
+  destruct (step true s e) eqn:E; [eapply step_expl; eassumption|assumption].
+Qed.
+
+Lemma notify_all_expl fuel : forall s, Expl s -> Expl (notify_all fuel s).
+Proof.
+  induction fuel as [|f IH]; intros s H; cbn [notify_all]; [assumption|].
+  destruct (pending s); [assumption|]. apply IH. now apply doev_expl.
+Qed.
+
+Lemma unregister_full_expl s c : Expl s -> Expl (unregister_full s c).
+Proof. intros H. unfold unregister_full. apply notify_all_expl. now apply doev_expl. Qed.
+
+Lemma mid_expl s s' : mid s s' -> Expl s -> Expl s'.
+Proof.
+  intros M H. destruct M.
+  - apply doev_expl; [now apply simple_script|assumption].
+  - apply doev_expl; [exact Logic.I|]. now apply doev_expl.
+  - now apply unregister_full_expl.
+  - apply unregister_full_expl. now apply doev_expl.
+  - apply (shut_all_prop Expl); [|assumption]. intros t e He Ht. apply doev_expl; [now apply shut_script|assumption].
+Qed.
+
+Lemma settle_expl s : Expl s -> Expl (settle s).
+Proof.
+  intros H c Hc. destruct (settle_spec s) as [(hn & _) Hcs]. rewrite hn in Hc.
+  rewrite Hcs. apply N.ltb_lt in Hc. rewrite Hc. apply N.ltb_lt in Hc. specialize (H c Hc).
+  unfold settle_conn, drain_conn, exit_conn, expl_ok in *.
+  destruct (is_running (cstate (conns s c))) eqn:Er; cbn [andb].
+  - destruct (cancelled (conns s c) || closed (conns s c)) eqn:Ef; cbn; [right; exact Ef|].
+    rewrite Er. cbn. left. exact Er.
+  - rewrite Er. destruct H as [H|H]; [discriminate H|]. right. exact H.
 Qed.
 
 (* ---- the script invariant ---- *)
 Record SInv (ss : sstate) : Prop := {
   si_reach : reach (st ss);
   si_sett : Sett (st ss);
+  si_expl : Expl (st ss);
   si_def : forall x, deferred ss = Some x ->
            exists w, win ss = Some w /\ eid (conns (st ss) w) = eid (conns (st ss) x)
 }.
@@ -1221,10 +1598,11 @@ Record SInv (ss : sstate) : Prop := {
 Lemma SInv_settle ss s' w :
   SInv ss -> mid (st ss) s' -> SInv (mkSS (settle s') w None).
 Proof.
-  intros [R S D] M. pose proof (mid_reach _ _ R M) as R'. constructor; cbn [st win deferred].
+  intros [R S E D] M. pose proof (mid_reach _ _ R M) as R'. constructor; cbn [st win deferred].
   - now apply settle_reach.
   - apply settle_Sett; [now apply reach_Inv|].
     destruct (mid_pending _ _ M) as [H|H]; [assumption|]. rewrite H. apply (sett_p _ S).
+  - apply settle_expl. eapply mid_expl; eassumption.
   - discriminate.
 Qed.
 
@@ -1233,7 +1611,7 @@ Definition op_result (ss ss1 : sstate) : Prop :=
 
 Lemma exec_op_mid ss o : SInv ss -> op_result ss (fst (exec_op ss o)) /\ SInv (fst (exec_op ss o)).
 Proof.
-  intros HS. pose proof HS as [R S D].
+  intros HS. pose proof HS as [R S EX D].
   assert (Hskip : op_result ss ss /\ SInv ss) by (split; [now left|assumption]).
   assert (Hmid : forall s' w, mid (st ss) s' ->
             op_result ss (mkSS (settle s') w None) /\ SInv (mkSS (settle s') w None)).
@@ -1258,6 +1636,7 @@ Proof.
       cbn [fst]. apply Hmid. apply mid_ev. constructor.
     + destruct (win ss); [exact Hskip|]. destruct (match o with Some c => _ | None => true end); [|exact Hskip].
       cbn [fst]. apply Hmid. apply mid_ev. constructor.
+    + destruct (win ss); [exact Hskip|]. cbn [fst]. apply Hmid. apply mid_shut.
 Qed.
 
 (* ---- reading the model's own observations ---- *)
@@ -1322,7 +1701,7 @@ Lemma gone_news_no_entry ss0 ss1 c l X :
   SInv ss0 -> op_result ss0 ss1 ->
   In (c, l) (news_of (st ss0) (st ss1)) -> In (FGone X) l -> reg (st ss1) X = [].
 Proof.
-  intros [R S D] [Hsame|(s' & M & Hs')] Hin Hf.
+  intros [R S EX D] [Hsame|(s' & M & Hs')] Hin Hf.
   - rewrite Hsame, news_of_same in Hin. contradiction.
   - rewrite Hs' in *. apply news_of_in in Hin as [Hc ->].
     destruct (settle_reg s') as (hr & hn & _). rewrite hn in Hc. rewrite hr.
@@ -1437,7 +1816,7 @@ Lemma step_sent_sorted s e s' :
   (forall id, StronglySorted N.lt (sent s id)) -> step true s e = Some s' ->
   forall id, StronglySorted N.lt (sent s' id).
 Proof.
-  intros Hs H id. destruct e as [i v|c|c|c|c|k|a d tg|c pkt|i o]; cbn [step] in H.
+  intros Hs H id. destruct e as [i v|c|c|c|c|k|a d tg|c pkt|i o|i|c]; cbn [step] in H.
   - injection H as <-. apply Hs.
   - destruct (_ && _); [|discriminate]. injection H as <-. cbn.
     destruct (reg s (eid (conns s c))); cbn; [apply Hs|].
@@ -1462,6 +1841,8 @@ Proof.
   - destruct o as [c|].
     + destruct (existsb _ _); injection H as <-; apply Hs.
     + injection H as <-. rewrite fold_cancel_sent. apply Hs.
+  - injection H as <-. apply Hs.
+  - destruct (taken _); [|discriminate]. injection H as <-. apply Hs.
 Qed.
 
 Lemma reach_sent_NoDup s : reach s -> forall id, NoDup (sent s id).
@@ -1539,10 +1920,10 @@ Qed.
 
 Lemma mid_entry_gone s s' X :
   reach s -> mid s s' -> reg s X <> [] -> reg s' X = [] ->
-  exists x, s' = unregister_full s x /\ (exists sa, step true s (Unregister x) = Some sa) /\
-            eid (conns s x) = X /\ reg s X = [x].
+  (exists x, s' = unregister_full s x /\ (exists sa, step true s (Unregister x) = Some sa) /\
+            eid (conns s x) = X /\ reg s X = [x]) \/ s' = shut_all s.
 Proof.
-  intros R M Hne H. pose proof (reach_Inv s R) as I. destruct M.
+  intros R M Hne H. pose proof (reach_Inv s R) as I. destruct M; [| | | |now right]; left.
   - exfalso. revert H. now apply simple_reg_nonempty.
   - exfalso. revert H. apply simple_reg_nonempty; [constructor|]. apply simple_reg_nonempty; [constructor|assumption].
   - exists c. split; [reflexivity|]. now apply unregister_full_entry_gone.
@@ -1705,9 +2086,10 @@ Lemma gone_delivered_model ss0 ss1 r :
   SInv ss0 -> op_result ss0 ss1 -> Inv (st ss1) ->
   gone_delivered (st ss0) (st ss1) (observe ss0 ss1 r) = true.
 Proof.
-  intros [R S D] Hop I. unfold gone_delivered. apply forallb_forall. intros X HX.
-  destruct (negb (is_nil (reg (st ss0) X)) && is_nil (obs_stack _ _ X)) eqn:Ec; [|reflexivity].
-  apply andb_prop in Ec as [Ec1 Ec2]. rewrite obs_stack_model_ids in Ec2 by assumption.
+  intros [R S EX D] Hop I. unfold gone_delivered. apply forallb_forall. intros X HX.
+  destruct (negb (is_nil (reg (st ss0) X)) && forallb _ (reg (st ss0) X) && is_nil (obs_stack _ _ X)) eqn:Ec; [|reflexivity].
+  apply andb_prop in Ec as [Ec1 Ec2]. apply andb_prop in Ec1 as [Ec1 Ect].
+  rewrite obs_stack_model_ids in Ec2 by assumption.
   assert (Hne : reg (st ss0) X <> []) by (intros Hx; rewrite Hx in Ec1; discriminate).
   assert (Hnil : reg (st ss1) X = []) by (destruct (reg (st ss1) X); [reflexivity|discriminate]).
   apply forallb_forall. intros p Hp.
@@ -1719,7 +2101,12 @@ Proof.
   destruct Hop as [Hsame|(s' & M & Hs')]; [rewrite Hsame in Hnil; contradiction|].
   rewrite news_for_model. apply N.ltb_lt in Hlt. rewrite Hlt. apply N.ltb_lt in Hlt.
   rewrite Hs' in *. destruct (settle_reg s') as (hr & hn & _). rewrite hr in *. rewrite hn in Hlt.
-  destruct (mid_entry_gone _ _ X R M Hne Hnil) as (x & -> & (sa & E) & HeX & Hrx).
+  destruct (mid_entry_gone _ _ X R M Hne Hnil) as [(x & -> & (sa & E) & HeX & Hrx)| ->].
+  2:{ exfalso. destruct (reg (st ss0) X) as [|c0 l0] eqn:Er; [contradiction|].
+      cbn [forallb] in Ect. apply andb_prop in Ect as [Ect _]. apply negb_true_iff in Ect.
+      assert (Ht : taken (conns (shut_all (st ss0)) c0) = true).
+      { apply (shut_all_taken _ X); [congruence|assumption|rewrite Er; now left]. }
+      rewrite settle_taken in Ect. congruence. }
   pose proof (mid_reach _ _ R M) as R'.
   destruct (settle_running _ a (reach_Inv _ R') Hrun) as (_ & Hr' & Hcc).
   destruct (unregister_last_news _ x sa X p a rest R S E HeX Hrx Hp Ea Hr' Eg2) as (g1 & g2 & g3).
@@ -1766,7 +2153,7 @@ Proof.
   { destruct (step_cdelta s e s' c H Hs) as [Hd|((id & v & ->) & _)]; [exact Hd|].
     cbn [step] in H. injection H as <-. cbn. rewrite fupd_other by lia. apply cdelta_refl. }
   split; [exact H1|].
-  destruct e as [id v|c0|c0|c0|c0|k|a d tg|c0 pkt|id o]; try contradiction; cbn [step] in H.
+  destruct e as [id v|c0|c0|c0|c0|k|a d tg|c0 pkt|id o|id|c0]; try contradiction; cbn [step] in H.
   - injection H as <-. cbn. rewrite fupd_other by lia. split; [apply mqmono_refl|lia].
   - destruct (_ && _); [|discriminate]. injection H as <-. cbn.
     set (s1 := match reg s (eid (conns s c0)) with [] => _ | _ :: _ => _ end).
@@ -1804,6 +2191,8 @@ Proof.
     + destruct (existsb _ _); injection H as <-; [split; [apply cancel_mqmono|cbn; lia]|split; [apply mqmono_refl|lia]].
     + injection H as <-. split; [apply fold_cancel_mqmono|].
       destruct (same_reg_fold_cancel (reg s id) s) as (-> & _). lia.
+  - injection H as <-. cbn. split; [|lia]. destruct (existsb _ _); [|apply mqmono_refl]. intros f Hf. exact Hf.
+  - destruct (taken _); [|discriminate]. injection H as <-. split; [apply cancel_mqmono|cbn; lia].
 Qed.
 
 (* what a connection that exists keeps through a sequence of script events *)
@@ -1999,6 +2388,8 @@ Proof.
     destruct O2 as (_ & Hb2 & Hm2 & _). apply Hm2.
     apply (insert_told s0 c0 a rest0 I Hen Hreg). apply room_of_sett; auto.
     destruct O1 as (_ & Hb1 & _). auto.
+  - (* shutdown: nothing new is registered *)
+    exfalso. destruct (shut_all_reg_cases s0 id) as [Hr|Hr]; rewrite Hr in Hc; contradiction.
 Qed.
 
 Lemma filter_ne_keeps (x c : N) l : c <> x -> In c l -> In c (filter (fun y => negb (y =? x)) l).
@@ -2077,6 +2468,8 @@ Proof.
       * cbn [negb] in Hr1. injection Hr1 as -> _.
         assert (Hpin : In p (reg s0 id)) by (rewrite Hreg; right; now left).
         destruct (registered_eid s0 id p I Hpin) as [_ Hins]. congruence.
+  - exfalso. destruct (shut_all_reg_cases s0 id) as [Hr|Hr]; rewrite Hr in Hr1, Hnc; [|discriminate].
+    apply Hnc, Hc0.
 Qed.
 
 Lemma existsb_false_notin c l : existsb (N.eqb c) l = false -> ~ In c l.
@@ -2089,7 +2482,7 @@ Lemma took_over_told_model ss0 ss1 r :
   SInv ss0 -> op_result ss0 ss1 -> Inv (st ss1) ->
   took_over_told (st ss0) (st ss1) (observe ss0 ss1 r) = true.
 Proof.
-  intros [R S D] Hop I. unfold took_over_told. apply forallb_forall. intros id Hid.
+  intros [R S EX D] Hop I. unfold took_over_told. apply forallb_forall. intros id Hid.
   destruct (reg (st ss0) id) as [|a rest0] eqn:Hreg; [reflexivity|].
   destruct (obs_stack _ _ id) as [|c [|a' rest1]] eqn:Eo; try reflexivity.
   destruct (_ && _) eqn:Ec; [|reflexivity].
@@ -2115,7 +2508,7 @@ Lemma healthy_told_model ss0 ss1 r :
   SInv ss0 -> op_result ss0 ss1 -> Inv (st ss1) ->
   healthy_told (st ss0) (st ss1) (observe ss0 ss1 r) = true.
 Proof.
-  intros [R S D] Hop I. unfold healthy_told. apply forallb_forall. intros id Hid.
+  intros [R S EX D] Hop I. unfold healthy_told. apply forallb_forall. intros id Hid.
   destruct (reg (st ss0) id) as [|c [|p rest0]] eqn:Hreg; try reflexivity.
   destruct (obs_stack _ _ id) as [|p' rest1] eqn:Eo; [reflexivity|].
   destruct (_ && _) eqn:Ec; [|reflexivity].
@@ -2135,13 +2528,31 @@ Proof.
   - eapply registered_lt; [apply reach_Inv, R|rewrite Hreg; right; now left].
 Qed.
 
+Lemma crange_in s c : In c (crange s) <-> c < nconns s.
+Proof.
+  pose proof (crange_existsb s c) as H. split.
+  - intros Hin. apply N.ltb_lt. rewrite <- H. now apply existsb_in_true.
+  - intros Hlt. apply N.ltb_lt in Hlt. rewrite <- H in Hlt.
+    apply existsb_exists in Hlt as (x & Hx & E). apply N.eqb_eq in E. now subst.
+Qed.
+
+Lemma ends_explained_model ss0 ss1 r :
+  Expl (st ss1) -> ends_explained (st ss1) (observe ss0 ss1 r) = true.
+Proof.
+  intros E. unfold ends_explained. apply forallb_forall. intros c Hc. apply crange_in in Hc.
+  destruct (E c Hc) as [Hr|Hf].
+  - unfold obs_running, observe. cbn [o_states]. rewrite nth_states by assumption.
+    destruct (cstate (conns (st ss1) c)); try discriminate Hr. reflexivity.
+  - rewrite <- orb_assoc, Hf. apply orb_true_r.
+Qed.
+
 Lemma step_ok_model ss0 ss1 r :
-  SInv ss0 -> op_result ss0 ss1 -> Inv (st ss1) ->
+  SInv ss0 -> op_result ss0 ss1 -> Inv (st ss1) -> Expl (st ss1) ->
   step_ok (st ss0) (st ss1) (observe ss0 ss1 r) = true.
 Proof.
-  intros HS Hop I. unfold step_ok.
+  intros HS Hop I E. unfold step_ok.
   rewrite registry_ok_model, gone_only_after_last_model, gone_delivered_model,
-    took_over_told_model, healthy_told_model by assumption. reflexivity.
+    took_over_told_model, healthy_told_model, ends_explained_model by assumption. reflexivity.
 Qed.
 
 Lemma monitor_steps_model l : forall ss, SInv ss ->
@@ -2151,10 +2562,10 @@ Proof.
   - destruct (win ss); [|reflexivity].
     destruct (exec_op_mid ss (OInsert n) H) as [Hop H1].
     destruct (exec_op ss (OInsert n)) as [ss1 r]. cbn [fst] in *. cbn.
-    rewrite step_ok_model; [reflexivity|assumption..|]. apply reach_Inv, (si_reach _ H1).
+    rewrite step_ok_model; [reflexivity|assumption|assumption|apply reach_Inv, (si_reach _ H1)|apply (si_expl _ H1)].
   - destruct (exec_op_mid ss o H) as [Hop H1].
     destruct (exec_op ss o) as [ss1 r]. cbn [fst] in *. cbn [map snd monitor_steps fst].
-    rewrite step_ok_model; [|assumption..|apply reach_Inv, (si_reach _ H1)]. cbn [andb]. apply IH, H1.
+    rewrite step_ok_model; [|assumption|assumption|apply reach_Inv, (si_reach _ H1)|apply (si_expl _ H1)]. cbn [andb]. apply IH, H1.
 Qed.
 
 Lemma SInv_init cap : SInv (mkSS (init cap) None None).
@@ -2162,6 +2573,7 @@ Proof.
   constructor; cbn [st win deferred].
   - apply reach_init.
   - constructor; [intros c H; discriminate H|reflexivity].
+  - intros c Hc. cbn in Hc. lia.
   - discriminate.
 Qed.
 
@@ -2192,7 +2604,9 @@ Definition obs_gone_only_after_last (s1 : state) (ob : obs) : Prop :=
   forall c l X, In (c, l) (o_news ob) -> In (FGone X) l -> obs_stack s1 ob X = [].
 
 Definition obs_gone_delivered (s0 s1 : state) (ob : obs) : Prop :=
-  forall X p a rest, In X ids -> reg s0 X <> [] -> obs_stack s1 ob X = [] -> In p (sent s0 X) ->
+  forall X p a rest, In X ids -> reg s0 X <> [] ->
+    (forall c, In c (reg s0 X) -> taken (conns s1 c) = false) ->   (* not taken out by a shutdown *)
+    obs_stack s1 ob X = [] -> In p (sent s0 X) ->
     obs_stack s1 ob p = a :: rest -> obs_running ob a = true -> 1 <= cap s0 ->
     count_frame (FGone X) (news_for ob a) = 1.
 
@@ -2213,17 +2627,21 @@ Lemma gone_delivered_spec s0 s1 ob :
   gone_delivered s0 s1 ob = true <-> obs_gone_delivered s0 s1 ob.
 Proof.
   unfold gone_delivered, obs_gone_delivered. rewrite forallb_forall. split.
-  - intros H X p a rest HX Hne Hnil Hp Ha Hrun Hcap. specialize (H X HX).
+  - intros H X p a rest HX Hne Hnt Hnil Hp Ha Hrun Hcap. specialize (H X HX).
     rewrite Hnil in H. cbn [is_nil] in H. rewrite andb_true_r in H.
+    assert (Hft : forallb (fun c => negb (taken (conns s1 c))) (reg s0 X) = true).
+    { apply forallb_forall. intros c Hc. now rewrite Hnt. }
+    rewrite Hft, andb_true_r in H.
     destruct (reg s0 X) eqn:E; [contradiction|]. cbn [is_nil negb] in H.
     rewrite forallb_forall in H. specialize (H p Hp). rewrite Ha, Hrun in H.
     apply N.leb_le in Hcap. rewrite Hcap in H. cbn [andb] in H. now apply N.eqb_eq.
-  - intros H X HX. destruct (negb _ && _) eqn:Ec; [|reflexivity].
-    apply andb_prop in Ec as [E1 E2]. apply is_nil_true in E2.
+  - intros H X HX. destruct (negb _ && _ && _) eqn:Ec; [|reflexivity].
+    apply andb_prop in Ec as [E1 E2]. apply andb_prop in E1 as [E1 Et]. apply is_nil_true in E2.
     apply forallb_forall. intros p Hp. destruct (obs_stack s1 ob p) as [|a rest] eqn:Ea; [reflexivity|].
     destruct (obs_running ob a && _) eqn:Eg; [|reflexivity]. apply andb_prop in Eg as [G1 G2].
     apply N.eqb_eq. apply (H X p a rest); auto.
     + intros Hx. rewrite Hx in E1. discriminate.
+    + intros c Hc. rewrite forallb_forall in Et. apply negb_true_iff. now apply Et.
     + now apply N.leb_le.
 Qed.
 
@@ -2282,12 +2700,27 @@ Proof.
     apply existsb_frame_in. apply (H id c p rest0 rest1); auto. now rewrite Eo.
 Qed.
 
+(* a connection observed not running is one whose client closed or that was told to stop *)
+Definition obs_ends_explained (s1 : state) (ob : obs) : Prop :=
+  forall c, c < nconns s1 -> obs_running ob c = false ->
+    cancelled (conns s1 c) = true \/ closed (conns s1 c) = true.
+
+Lemma ends_explained_spec s1 ob : ends_explained s1 ob = true <-> obs_ends_explained s1 ob.
+Proof.
+  unfold ends_explained, obs_ends_explained. rewrite forallb_forall. split.
+  - intros H c Hc Hr. apply crange_in in Hc. specialize (H c Hc). rewrite Hr in H. cbn [orb] in H.
+    now apply orb_true_iff.
+  - intros H c Hc. apply crange_in in Hc. destruct (obs_running ob c) eqn:Er; [reflexivity|].
+    cbn [orb]. apply orb_true_iff. now apply H.
+Qed.
+
 Definition obs_step_spec (s0 s1 : state) (ob : obs) : Prop :=
   obs_registry_spec s1 ob /\ obs_gone_only_after_last s1 ob /\ obs_gone_delivered s0 s1 ob /\
-  obs_took_over_told s0 s1 ob /\ obs_healthy_told s0 s1 ob.
+  obs_took_over_told s0 s1 ob /\ obs_healthy_told s0 s1 ob /\ obs_ends_explained s1 ob.
 
 Lemma step_ok_spec s0 s1 ob : step_ok s0 s1 ob = true <-> obs_step_spec s0 s1 ob.
 Proof.
   unfold step_ok, obs_step_spec. rewrite !andb_true_iff, registry_ok_spec,
-    gone_only_after_last_spec, gone_delivered_spec, took_over_told_spec, healthy_told_spec. tauto.
+    gone_only_after_last_spec, gone_delivered_spec, took_over_told_spec, healthy_told_spec,
+    ends_explained_spec. tauto.
 Qed.
